@@ -15,6 +15,29 @@ use std::collections::{BTreeMap, HashSet};
 use std::io::{BufRead, BufReader, Write};
 use treeobs::*;
 
+// ---- watchdog: a case that does not terminate must not hang the whole check ----
+static CURRENT_CASE: std::sync::Mutex<Option<(std::time::Instant, String)>> = std::sync::Mutex::new(None);
+fn case_begin(line: &str) {
+    *CURRENT_CASE.lock().unwrap() = Some((std::time::Instant::now(), line.to_string()));
+}
+fn case_end() {
+    *CURRENT_CASE.lock().unwrap() = None;
+}
+fn start_watchdog() {
+    let limit: u64 = std::env::var("MSTV_CASE_TIMEOUT_S").ok().and_then(|v| v.parse().ok()).unwrap_or(60);
+    std::thread::spawn(move || loop {
+        std::thread::sleep(std::time::Duration::from_millis(500));
+        let cur = CURRENT_CASE.lock().unwrap().clone();
+        if let Some((t0, line)) = cur {
+            if t0.elapsed().as_secs() >= limit {
+                eprintln!("HANG {}", line);
+                println!("{{\"hang\":{},\"limit_s\":{}}}", jstr(&line), limit);
+                std::process::exit(3);
+            }
+        }
+    });
+}
+
 fn observe_tree_w<const N: usize>(c: &TreeCase) -> String {
     observe_tree::<N>(c)
 }
@@ -254,7 +277,9 @@ fn cmd_cmp(cases: &str, model: &str) {
             continue;
         }
         let kind = line.split(' ').next().unwrap().to_string();
+        case_begin(&line);
         let a = observe_line(&line);
+        case_end();
         let b = match fm.next() {
             Some(Ok(l)) => l,
             _ => {
@@ -352,6 +377,7 @@ fn cmd_oracle(cases: &str) {
         n += 1;
         let toks: Vec<&str> = line.split(' ').collect();
         *by_kind.entry(toks[0].to_string()).or_default() += 1;
+        case_begin(&line);
         let v: oracle::Viol = match toks[0] {
             "T" | "Tb" | "Tf" => {
                 let c = parse_tree_case(&toks);
@@ -385,6 +411,7 @@ fn cmd_oracle(cases: &str) {
             }
             _ => vec![],
         };
+        case_end();
         let mut seen_here: HashSet<&'static str> = HashSet::new();
         for (p, m) in v {
             if seen_here.insert(p) {
@@ -456,6 +483,7 @@ fn main() {
                 "tree-exh" => gen::tree_exh(&mut s, p(1), p(2), p(3), pos.get(4) == Some(&"b")),
                 "tree-rand" => gen::tree_rand(&mut s, p(1) as u64, seed, p(2)),
                 "tree-stair" => gen::tree_stair(&mut s, p(1) as u64, seed),
+                "tree-burst" => gen::tree_burst(&mut s, pos.get(1) == Some(&"big")),
                 "tree-flat" => gen::tree_flat(&mut s, p(1) as u64, seed),
                 "tree-perm" => gen::tree_perm(&mut s, p(1), p(2), pos.get(3).map(|x| x.contains('h')).unwrap_or(false), pos.get(3).map(|x| x.contains('u')).unwrap_or(false)),
                 "pair-exh" => gen::pair_exh(&mut s, p(1), p(2)),
@@ -474,6 +502,7 @@ fn main() {
             w.flush().unwrap();
         }
         Some("run") => {
+            start_watchdog();
             let stdin = std::io::stdin();
             let stdout = std::io::stdout();
             let mut w = std::io::BufWriter::with_capacity(1 << 20, stdout.lock());
@@ -482,11 +511,20 @@ fn main() {
                 if line.is_empty() {
                     continue;
                 }
-                writeln!(w, "{}", observe_line(&line)).unwrap();
+                case_begin(&line);
+                let o = observe_line(&line);
+                case_end();
+                writeln!(w, "{}", o).unwrap();
             }
         }
-        Some("cmp") => cmd_cmp(&args[2], &args[3]),
-        Some("oracle") => cmd_oracle(&args[2]),
+        Some("cmp") => {
+            start_watchdog();
+            cmd_cmp(&args[2], &args[3])
+        }
+        Some("oracle") => {
+            start_watchdog();
+            cmd_oracle(&args[2])
+        }
         Some("deep") => cmd_deep(args[2].parse().unwrap(), args.get(3).map(|s| s.parse().unwrap()).unwrap_or(2 << 20)),
         _ => {
             eprintln!("usage: gen|run|cmp|oracle|deep");
